@@ -31,7 +31,12 @@ class Parser(Emitter):
                 result = self.parser.parse(expression)
         except Exception as e:
             if self.debug:
-                traceback.print_exc()
+                try:
+                    traceback.print_exc()
+                except Exception:
+                    # debug output is best effort: an exception object that cannot be
+                    # printed (or a closed stderr) must not change the outcome
+                    pass
             error = str(formulaserror.from_message(e))
             formulaserror.forget_traceback(e)
 
